@@ -1592,3 +1592,175 @@ func planC20(tier string, seed int64) (*Plan, error) {
 }
 
 func init() { Plans["C20"] = planC20 }
+
+// ---- C02 ----
+
+// document trees (notation in harness/h/c02.go); meaning fixed by construction
+var c02Trees = []string{
+	"P[t2]",
+	"P[t1 p t1]", "P[p p]", "P[t1 x t1]", "P[x p]",
+	"P[t1 p b t1]", "P[t1 b t1 n t1]", "P[t1 n p t1 b x]",
+	"P[t1 w e[t1] w t1]", "P[s[t2] w t1]", "P[e[s[t1]]]", "P[e[t1 n t1]]", "P[t1 w e[t1 w s[t1] w t1]]",
+	"P[c2]", "P[t1 w c1 w e[c1]]",
+	"P[l[t2]]", "P[t1 w l[t1 w e[t1]] w t1]", "P[i[t2]]", "P[i[t1 w e[t1]]]", "P[l[i[t1]]]", "P[l[t1] w l[t2]]", "P[l[p t1]]",
+	"P[a]", "P[t1 w a w r t1]",
+	"H1[t2]", "H2[t1 w e[t1]]", "H3[t1 p]", "H6[c1]", "H1[t1] P[t1]", "P[t1] H2[t1]",
+	"R", "P[t1] R P[t1]",
+	"I1", "I2", "P[t1] I1 P[t1]", "F1", "F2 P[t1]", "P[t1] F1",
+	"M P[t1]",
+	"Q{P[t1]}", "Q{P[t1] P[t1]}", "Q{H1[t1] F1}", "Q{Q{P[t1]}}", "Q{P[t1 n t1]}", "Q{I1}", "Q{U{L{P[t1]} L{P[t1]}}}",
+	"U{L{P[t1]}}", "U{L{P[t1]} L{P[t1]}}", "V{L{P[t1]} L{P[t1]}}", "V{L{P[t1] P[t1]}}", "O{L{P[t1]} L{P[t1]}}", "W{L{P[t1]} L{P[t1] P[t1]}}",
+	"U{L{P[t1] U{L{P[t1]}}}}", "U{L{P[t1] O{L{P[t1]} L{P[t1]}}} L{P[t1]}}", "V{L{P[t1] F1} L{P[t1] I1}}", "V{L{P[t1] Q{P[t1]}}}", "O{L{P[t1 n t1]}}", "U{L{F1}}", "V{L{H2[t1] P[t1]}}",
+	"U{L{P[t1]}} P[t1]", "P[t1] U{L{P[t1]}} R", "U{L{P[t1]}} O{L{P[t1]}}", "Q{P[t1]} U{L{P[e[t1]]}} H1[t1]",
+	"V{L{P[l[t1]] P[i[t1]]}}", "Q{P[l[t2] b t1]}", "U{L{P[t1 b t1]}}", "O{L{P[c1 w p]}}",
+}
+
+// c02Generated enumerates further trees from small grammars: every pair/triple of leaf blocks at top
+// level, every leaf block inside every container, two-level container nestings, and inline sequences.
+func c02Generated(full bool) []string {
+	leaves := []string{"P[t1]", "H2[t1]", "R", "I1", "F1", "M", "P[t1 n t1]", "H1[t1 w e[t1]]"}
+	var out []string
+	okPair := func(a, b string) bool {
+		// an HTML block of type 6 ends at a blank line: fine. Two adjacent indented code blocks would merge.
+		return !(a == "I1" && b == "I1")
+	}
+	for _, a := range leaves {
+		for _, b := range leaves {
+			if okPair(a, b) {
+				out = append(out, a+" "+b)
+			}
+		}
+	}
+	inner := []string{"P[t1]", "H2[t1]", "I1", "F1", "P[t1] P[t1]", "P[t1] F1", "F1 P[t1]", "H1[t1] P[t1]", "P[t1] I1", "M"}
+	for _, in := range inner {
+		out = append(out, "Q{"+in+"}", "V{L{"+in+"}}", "W{L{"+in+"} L{P[t1]}}", "V{L{P[t1]} L{"+in+"}}")
+		out = append(out, "Q{"+in+"} P[t1]", "P[t1] Q{"+in+"}", "V{L{"+in+"}} P[t1]", "H1[t1] W{L{"+in+"}}")
+	}
+	tightInner := []string{"P[t1]", "P[t1] U{L{P[t1]}}", "P[t1] O{L{P[t1]}}", "F1", "P[t1] F1", "P[t1] Q{P[t1]}", "P[t1 n t1]", "H2[t1]"}
+	for _, in := range tightInner {
+		out = append(out, "U{L{"+in+"}}", "O{L{"+in+"} L{P[t1]}}", "U{L{P[t1]} L{"+in+"}}", "Q{U{L{"+in+"}}}", "U{L{"+in+"}} P[t1]")
+	}
+	conts := []string{"Q{%}", "V{L{%}}", "W{L{%}}", "U{L{%}}"}
+	for _, c1 := range conts {
+		for _, c2 := range conts {
+			for _, in := range []string{"P[t1]", "F1", "P[t1] P[t1]"} {
+				if (c1 == "U{L{%}}" || c2 == "U{L{%}}") && in == "P[t1] P[t1]" {
+					continue // two paragraphs make an item loose
+				}
+				if c1 == "U{L{%}}" && c2 != "U{L{%}}" && c2 != "Q{%}" {
+					continue // a loose list inside a tight item is fine, but keep tight outer + loose inner out: first block must be a paragraph for <li> layout
+				}
+				t := ""
+				for i := 0; i < len(c1); i++ {
+					if c1[i] == '%' {
+						for j := 0; j < len(c2); j++ {
+							if c2[j] == '%' {
+								t += in
+							} else {
+								t += string(c2[j])
+							}
+						}
+					} else {
+						t += string(c1[i])
+					}
+				}
+				out = append(out, t)
+			}
+		}
+	}
+	atoms := []string{"t1", "p", "x", "w e[t1] w", "w s[t1] w", "c1", "l[t1]", "i[t1]", "w a w", "r", "b t1", "n t1", "w e[s[t1]] w", "l[e[t1]]", "w e[l[t1]] w", "l[c1]", "i[l[t1]]", "p p", "x x"}
+	for _, a := range atoms {
+		for _, b := range atoms {
+			if !full && (len(a)+len(b))%3 != 0 {
+				continue
+			}
+			if (a == "l[t1]" || a == "l[c1]" || a == "l[e[t1]]") && (b[0] == 'l' || b[0] == 'i') {
+				continue // adjacent links: a shortcut reference followed by '[' would read as a full reference
+			}
+			if a[0] == 'i' && (b[0] == 'l' || b[0] == 'i') {
+				continue
+			}
+			if a[len(a)-1] == 'w' && (b == "b t1" || b == "n t1") {
+				continue // a space in front of a line break is stripped: not the same structure
+			}
+			out = append(out, "P[t1 "+a+" "+b+" t1]")
+			if a != "b t1" && a != "n t1" && b != "b t1" && b != "n t1" && b != "r" && a != "r" {
+				out = append(out, "H1[t1 "+a+" "+b+" t1]")
+			}
+		}
+	}
+	return out
+}
+
+func planC02(tier string, seed int64) (*Plan, error) {
+	p := &Plan{MustReach: []string{"done"}}
+	thorough := tier == "thorough"
+	var jobs []interp.Job
+	r := rand.New(rand.NewSource(seed))
+	c02Trees := append(append([]string(nil), c02Trees...), c02Generated(thorough)...)
+	type choice struct{ ind, fence, link, hb, setext, atxclose, tabs int }
+	var choices []choice
+	for ind := 0; ind <= 3; ind++ {
+		for link := 0; link <= 3; link++ {
+			choices = append(choices, choice{ind, 3 + (ind+link)%3, link, (ind + link) % 2, (ind + link/2) % 2, link % 2, (ind / 2) % 2})
+		}
+	}
+	for ti, t := range c02Trees {
+		// every tree under the default spelling and under a seeded subset of the enumerated choices (thorough: all 16 + flips)
+		cs := []choice{{0, 3, 0, 0, 0, 0, 0}}
+		if thorough {
+			cs = append(cs, choices...)
+			cs = append(cs, choice{1, 4, 1, 1, 1, 1, 1}, choice{3, 5, 2, 0, 1, 0, 1})
+		} else {
+			for k := 0; k < 2; k++ {
+				cs = append(cs, choices[(ti*5+int(seed)+k*7)%len(choices)])
+			}
+			cs = append(cs, choices[r.Intn(len(choices))])
+		}
+		for _, c := range cs {
+			jobs = append(jobs, job("H_c02_tree", "tree", t, "ind", c.ind, "fence", c.fence, "link", c.link, "hb", c.hb, "setext", c.setext, "atxclose", c.atxclose, "tabs", c.tabs))
+		}
+	}
+	spec, err := LoadSpec()
+	if err != nil {
+		return nil, err
+	}
+	closedEnd := func(h string) bool {
+		for _, suf := range []string{"</p>\n", "</h1>\n", "</h2>\n", "</h3>\n", "</h4>\n", "</h5>\n", "</h6>\n", "<hr />\n", "</blockquote>\n", "</ul>\n", "</ol>\n"} {
+			if len(h) >= len(suf) && h[len(h)-len(suf):] == suf {
+				return true
+			}
+		}
+		return false
+	}
+	nspec, nskip := 0, 0
+	for i, d := range spec {
+		if d.Markdown == "" {
+			continue
+		}
+		_ = i
+		rws := []int{0, 1, 3, 4, 5}
+		if closedEnd(d.HTML) {
+			rws = append(rws, 2, 6, 7, 8)
+		} else {
+			nskip++
+		}
+		for _, rw := range rws {
+			jobs = append(jobs, job("H_c02_spec", "md", d.Markdown, "html", d.HTML, "rw", rw, "name", d.Name))
+		}
+		nspec++
+	}
+	p.Jobs = jobs
+	p.Bounds = map[string]interface{}{
+		"trees":      fmt.Sprintf("%d document trees: a hand-written list plus generated families (every ordered pair of leaf blocks; every leaf block and block pair inside a quote, a loose/tight bullet item, an ordered item; two-level container nestings; paragraphs and headings holding every ordered pair of inline atoms - quick: a third of the pairs) (depth <= 3; paragraphs, ATX/Setext headings, thematic breaks, indented and fenced code, HTML block, block quotes, tight/loose bullet and ordered lists and their nestings; text, escaped punctuation, numeric references, emphasis/strong, code spans, links, images, autolinks, raw HTML, hard and soft breaks): %q", len(c02Trees), c02Trees),
+		"symbolic":   "per tree, solved for at once: bullet marker in {-,+,*}, ordered delimiter in {.,)}, fence character in {`,~}, emphasis delimiter in {*,_}, thematic-break character in {*,-,_}, title quote in {\",'}, every text letter in a..z, every escaped punctuation byte over all 32 ASCII punctuation characters, numeric references &#33;..&#99;, a case flip for the first two letters of every full reference label",
+		"enumerated": "leading indentation 0-3, fence length 3-5, link style inline/full/collapsed/shortcut, hard break as backslash or two spaces, Setext vs ATX, ATX closing sequence, tab vs spaces for indented code (quick: the default spelling + 3 of 16 combinations per tree; thorough: 19 combinations)",
+		"spec":       fmt.Sprintf("%d examples of _test/spec.json (expected HTML from the file): final newline removed; an unrelated paragraph / ATX heading / thematic break with symbolic letters placed before; and, for the %d examples whose expected HTML ends in a closed block (p, h1-6, hr, blockquote, ul, ol), an extra final newline and the same unrelated block placed after; %d examples end in a code or HTML block and are skipped for the 'after' rewrites by that stated rule", nspec, nspec-nskip, nskip),
+		"comparison": "byte equality after deleting newlines directly behind '>' or directly in front of '<' and trailing newlines (a subset of what the specification's own normaliser ignores)",
+		"outside":    "tree shapes are enumerated, not symbolic; deeper or larger trees",
+	}
+	p.Rule = "expected HTML is produced by the harness's reference serializer (trees) or read from spec.json (examples), never by goldmark"
+	return p, nil
+}
+
+func init() { Plans["C02"] = planC02 }
